@@ -556,7 +556,7 @@ def applyTree1 (s : State) (b : Header) (tree0 : Tree) : Tree :=
 
 theorem applyBlock_eq (s : State) (b : Header) : s.applyBlock b =
     match s.tree.find (byHash b.id) with
-    | some _ => (s, true, b.sup)
+    | some tn => (s, true, mergeSup b.sup tn.ckpt.sup)
     | none =>
       match s.ensureNode s.fuel s.tree b.parent with
       | none => (s, false, b.sup)
